@@ -8,7 +8,7 @@ fail, which drives the exception-handling fallback paths.  Oracle: dense referen
 from .core import Result, Violation, HarnessError, EventLog, bump, rng_for, sha_bytes, settle
 
 PROP = 'C05'
-TIMEOUT = 240
+TIMEOUT = 900
 BATCHES = {
     'quick': [('F0', 2600), ('FI', 1600), ('M', 260)],
     'thorough': [('F0', 90000), ('FI', 50000), ('M', 7000)],
